@@ -7,8 +7,6 @@ Open Scope Z_scope.
 
 Definition numeric (t : ty) : Prop := t <> TStr.
 Definition arith (o : bop) : bool := match o with Add | Sub | Mul | Div => true | _ => false end.
-Definition integer_op (o : bop) : bool :=
-  match o with IntDiv | Mod | And | Or | Xor | Eqv | Imp => true | _ => false end.
 
 (* + - * / on numbers: the widest operand type, integers being promoted to single *)
 Lemma rt_arith dm o a b : arith o = true -> numeric a -> numeric b ->
@@ -68,22 +66,44 @@ Proof. destruct o, a; simpl; eauto. Qed.
 
 (* ---- values carry the type the dispatch table says *)
 Lemma num_type t x v : num t x = Ok v -> v = VNum t x.
-Proof. unfold num. destruct (in_dom x); [intros [= <-]; reflexivity | discriminate]. Qed.
+Proof. unfold num. destruct (in_dom t x); [intros [= <-]; reflexivity | discriminate]. Qed.
+
+Definition num_branch (o : bop) (t : ty) (x y : Z) : res val :=
+  if integer_op o
+  then do x' <- int_arg x; do y' <- int_arg y; do r <- num_binop o x' y'; num t r
+  else do r <- num_binop o x y; num t r.
+
+Lemma num_branch_type o t x y v : num_branch o t x y = Ok v -> exists r, v = VNum t r.
+Proof.
+  unfold num_branch. destruct (integer_op o).
+  - destruct (int_arg x); cbn [bind]; try discriminate. destruct (int_arg y); cbn [bind]; try discriminate.
+    destruct (num_binop o a a0); cbn [bind]; try discriminate. intros H. apply num_type in H. eauto.
+  - destruct (num_binop o x y); cbn [bind]; try discriminate. intros H. apply num_type in H. eauto.
+Qed.
+
+Lemma int_arg_ok x x' : int_arg x = Ok x' -> x' = x.
+Proof.
+  unfold int_arg. destruct (in_dom TInt x); [congruence|]. destruct (x =? -32768); discriminate.
+Qed.
 
 Lemma v_binop_type dm o a b v : v_binop dm o a b = Ok v -> rt_binop dm o (ty_of a) (ty_of b) = Ok (ty_of v).
 Proof.
-  unfold v_binop. destruct (rt_binop dm o (ty_of a) (ty_of b)) as [t| | |] eqn:E; cbn [bind]; try discriminate.
+  unfold v_binop. destruct (left_conv o a) as [[]| | |]; cbn [bind]; try discriminate.
+  destruct (rt_binop dm o (ty_of a) (ty_of b)) as [t| | |] eqn:E; cbn [bind]; try discriminate.
   destruct a as [ta x|s1], b as [tb y|s2]; try discriminate.
-  - destruct (num_binop o x y); cbn [bind]; try discriminate.
-    intros H. apply num_type in H. subst v. reflexivity.
+  - intros H. apply (num_branch_type o t x y) in H as [r ->]. reflexivity.
   - destruct (relational o) eqn:RO.
     + intros [= <-]. reflexivity.
     + destruct (zlen s1 + zlen s2 <=? 255); [|discriminate]. intros [= <-].
       destruct o; try discriminate RO; simpl in E |- *; congruence.
 Qed.
 
-Lemma v_binop_mismatch dm o a b e : rt_binop dm o (ty_of a) (ty_of b) = Err e -> v_binop dm o a b = Err e.
-Proof. unfold v_binop. intros ->. reflexivity. Qed.
+Lemma v_binop_mismatch dm o a b e : left_conv o a = Ok tt ->
+  rt_binop dm o (ty_of a) (ty_of b) = Err e -> v_binop dm o a b = Err e.
+Proof. unfold v_binop. intros -> ->. reflexivity. Qed.
+
+Lemma left_conv_not_integer o a : integer_op o = false -> left_conv o a = Ok tt.
+Proof. unfold left_conv. intros ->. reflexivity. Qed.
 
 Lemma v_unop_type o a v : v_unop o a = Ok v -> rt_unop o (ty_of a) = Ok (ty_of v).
 Proof.
@@ -91,6 +111,8 @@ Proof.
   destruct o, a as [ta x|s]; simpl in *; try discriminate;
     try (intros H; apply num_type in H; subst v; reflexivity);
     try (intros [= <-]; simpl; congruence).
+  destruct (int_arg x); cbn [bind]; try discriminate.
+  intros H; apply num_type in H; subst v; reflexivity.
 Qed.
 
 (* relational operators yield the integer -1 or 0 *)
@@ -100,34 +122,80 @@ Proof.
   intros Ho H. pose proof (v_binop_type _ _ _ _ _ H) as Ht.
   assert (Hti : ty_of v = TInt).
   { destruct o; try discriminate; destruct (ty_of a), (ty_of b); simpl in Ht; congruence. }
-  unfold v_binop in H. destruct (rt_binop dm o (ty_of a) (ty_of b)) as [t| | |]; cbn [bind] in H; try discriminate.
+  unfold v_binop in H. rewrite left_conv_not_integer in H by (destruct o; try discriminate; reflexivity).
+  cbn [bind] in H.
+  destruct (rt_binop dm o (ty_of a) (ty_of b)) as [t| | |]; cbn [bind] in H; try discriminate.
   injection Ht as Ht. rewrite Hti in Ht. subst t.
   destruct a as [ta x|s1], b as [tb y|s2]; try discriminate.
-  - destruct o; try discriminate; cbn [num_binop bind] in H; apply num_type in H; subst v;
+  - destruct o; try discriminate; cbn [integer_op num_binop bind] in H; apply num_type in H; subst v;
       unfold b2i; match goal with |- context [if ?c then _ else _] => destruct c end; auto.
   - rewrite Ho in H. injection H as <-. unfold b2i.
     match goal with |- context [if ?c then _ else _] => destruct c end; auto.
 Qed.
 
+(* ---- mixed precision: the operation is done on the exact values in the widest operand type, whichever side
+   the wider operand is on - nothing is narrowed *)
+Lemma v_compare_exact dm o ta x tb y : relational o = true -> numeric ta -> numeric tb ->
+  v_binop dm o (VNum ta x) (VNum tb y) = Ok (VNum TInt (b2i (rel o (x =? y) (x >? y) (x <? y)))).
+Proof.
+  unfold numeric. intros Ho Ha Hb.
+  destruct o; try discriminate; destruct ta; try congruence; destruct tb; try congruence;
+    cbn [v_binop left_conv ty_of rt_binop bind integer_op num_binop]; unfold num, b2i;
+    match goal with |- context [rel ?o ?a ?b ?c] => destruct (rel o a b c) end; reflexivity.
+Qed.
+
+Lemma v_addsub_widest dm o ta x tb y :
+  o = Add \/ o = Sub -> numeric ta -> numeric tb ->
+  let t := widest (to_float ta) tb in
+  let r := match o with Add => x + y | _ => x - y end in
+  in_dom t r = true ->
+  v_binop dm o (VNum ta x) (VNum tb y) = Ok (VNum t r)
+  /\ (ta = TDbl \/ tb = TDbl -> t = TDbl).
+Proof.
+  unfold numeric. intros Ho Ha Hb. cbv zeta. intros D. split.
+  - destruct Ho as [-> | ->]; destruct ta; try congruence; destruct tb; try congruence;
+      cbn [v_binop left_conv ty_of rt_binop bind integer_op num_binop is_str orb]; unfold num;
+      cbn [to_float] in *; rewrite D; reflexivity.
+  - intros H; destruct ta, tb; try congruence; destruct H; try discriminate; reflexivity.
+Qed.
+
 (* the model operators never answer with an IndexError (needed to instantiate the parser theorem) *)
 Lemma num_no_idx t x : num t x <> Host host_IndexError.
-Proof. unfold num. destruct (in_dom x); discriminate. Qed.
+Proof. unfold num. destruct (in_dom t x); discriminate. Qed.
+
+Lemma int_arg_no_idx x : int_arg x <> Host host_IndexError.
+Proof. unfold int_arg. destruct (in_dom TInt x); [discriminate|]. destruct (x =? -32768); discriminate. Qed.
 
 Lemma v_binop_no_idx dm o a b : v_binop dm o a b <> Host host_IndexError.
 Proof.
-  unfold v_binop. destruct (rt_binop_total dm o (ty_of a) (ty_of b)) as [[t ->] | ->]; cbn [bind]; [|discriminate].
+  unfold v_binop.
+  assert (L : left_conv o a <> Host host_IndexError).
+  { unfold left_conv. destruct (integer_op o); [|discriminate]. destruct a as [ta x|s]; [|discriminate].
+    pose proof (int_arg_no_idx x) as Ix. destruct (int_arg x); cbn [bind]; try discriminate.
+    intros [= ->]. apply Ix. reflexivity. }
+  destruct (left_conv o a) as [[]| | x0 |]; cbn [bind]; try discriminate;
+    [| intros [= ->]; apply L; reflexivity].
+  destruct (rt_binop_total dm o (ty_of a) (ty_of b)) as [[t ->] | ->]; cbn [bind]; [|discriminate].
   destruct a as [ta x|s1], b as [tb y|s2]; try discriminate.
-  - assert (N : (exists r, num_binop o x y = Ok r) \/ num_binop o x y = Host host_Other).
-    { destruct o; simpl; eauto;
+  - assert (N : forall x y, (exists r, num_binop o x y = Ok r) \/ num_binop o x y = Host host_Other).
+    { intros x0 y0. destruct o; simpl; eauto;
         repeat match goal with |- context [if ?c then _ else _] => destruct c end; eauto. }
-    destruct N as [[r ->] | ->]; cbn [bind]; [apply num_no_idx | discriminate].
+    destruct (integer_op o).
+    + pose proof (int_arg_no_idx x) as Ix. destruct (int_arg x) as [x'| | |]; cbn [bind]; try discriminate;
+        [|intros [= ->]; apply Ix; reflexivity].
+      pose proof (int_arg_no_idx y) as Iy. destruct (int_arg y) as [y'| | |]; cbn [bind]; try discriminate;
+        [|intros [= ->]; apply Iy; reflexivity].
+      destruct (N x' y') as [[r ->] | ->]; cbn [bind]; [apply num_no_idx | discriminate].
+    + destruct (N x y) as [[r ->] | ->]; cbn [bind]; [apply num_no_idx | discriminate].
   - destruct (relational o); [discriminate|]. destruct (zlen s1 + zlen s2 <=? 255); discriminate.
 Qed.
 
 Lemma v_unop_no_idx o a : v_unop o a <> Host host_IndexError.
 Proof.
   unfold v_unop. destruct (rt_unop_total o (ty_of a)) as [[t ->] | ->]; cbn [bind]; [|discriminate].
-  destruct o, a; try discriminate; apply num_no_idx.
+  destruct o, a; try discriminate; try apply num_no_idx.
+  pose proof (int_arg_no_idx x) as Ix. destruct (int_arg x) as [x'| | |]; cbn [bind]; try discriminate;
+    [apply num_no_idx | intros [= ->]; apply Ix; reflexivity].
 Qed.
 
 Lemma rt_binop_no_idx dm o a b : rt_binop dm o a b <> Host host_IndexError.
@@ -169,9 +237,10 @@ Qed.
 (* a Type mismatch found on the types is the error of the evaluation, provided nothing failed before it *)
 Theorem eval_type_mismatch dm o l r a b :
   eval val v_unop (v_binop dm) l = Ok a -> eval val v_unop (v_binop dm) r = Ok b ->
+  left_conv o a = Ok tt ->
   is_str (ty_of a) <> is_str (ty_of b) ->
   eval val v_unop (v_binop dm) (Bin o l r) = Err tmm.
 Proof.
-  intros Hl Hr M. cbn [eval]. rewrite Hl, Hr. cbn [bind].
-  apply v_binop_mismatch. apply rt_mismatch. exact M.
+  intros Hl Hr LC M. cbn [eval]. rewrite Hl, Hr. cbn [bind].
+  apply v_binop_mismatch; [exact LC | apply rt_mismatch; exact M].
 Qed.
